@@ -40,6 +40,7 @@ TECHNIQUE = ("Lean 4 proof (field algebra with derivations, point evaluations, l
              "correspondence on polynomial PINNs")
 THEOREMS = [
     "Jinns.Equations.polyEvalHom",
+    "Jinns.Equations.polyOps_dX_comm",
     "Jinns.Equations.lapRev_eq_laplacian",
     "Jinns.Equations.divRev_eq_divergence",
     "Jinns.Equations.vecLap_nth",
@@ -49,11 +50,13 @@ THEOREMS = [
     "Jinns.Equations.burgers_tmax",
     "Jinns.Equations.burgers_affine_nu",
     "Jinns.Equations.burgers_vanishes_iff",
+    "Jinns.Equations.fisherKPP_value",
     "Jinns.Equations.fisherKPP_eq_doc",
     "Jinns.Equations.fisherKPP_tmax",
     "Jinns.Equations.fisherKPP_affine",
     "Jinns.Equations.fisherKPP_vanishes_iff",
     "Jinns.Equations.fpe2D_routing",
+    "Jinns.Equations.fpe2D_value",
     "Jinns.Equations.fpe2D_eq_doc_of_symm",
     "Jinns.Equations.fpe2D_eq_doc_of_comm",
     "Jinns.Equations.fpe2D_tmax",
@@ -64,18 +67,22 @@ THEOREMS = [
     "Jinns.Equations.ouFPE_vanishes_iff",
     "Jinns.Equations.glv_eq_doc",
     "Jinns.Equations.glv_none_iff",
+    "Jinns.Equations.glv_value",
     "Jinns.Equations.glv_tmax",
     "Jinns.Equations.glv_affine_r_c",
     "Jinns.Equations.dotFrom_set",
     "Jinns.Equations.glv_vanishes_iff",
     "Jinns.Equations.massConservation_eq_doc",
+    "Jinns.Equations.massConservation_value",
     "Jinns.Equations.massConservation_vanishes_iff",
     "Jinns.Equations.navierStokes_nth",
+    "Jinns.Equations.navierStokes_value",
     "Jinns.Equations.navierStokes_eq_doc",
     "Jinns.Equations.navierStokes_affine",
     "Jinns.Equations.navierStokes_vanishes_iff",
     "Jinns.Equations.evalHetero_none",
     "Jinns.Equations.evalHetero_no_function",
+    "Jinns.Equations.evalHetero_function",
     "Jinns.Equations.getVec_extract_nested",
     "Jinns.Equations.extractParams_flat",
     "Jinns.Equations.evaluate_burgers",
@@ -86,11 +93,13 @@ THEOREMS = [
     "Jinns.Equations.evaluate_navierStokes",
     "Jinns.Equations.evaluate_navierStokes_needs_top_level_rho",
     "Jinns.Equations.evaluate_dispatch",
+    "Jinns.Equations.evaluate_statio_ignores_Tmax",
     "Jinns.Equations.mvLawful",
     "Jinns.Equations.mvEvalHom",
     "Jinns.Holds.model_holds_burgers",
     "Jinns.Holds.model_holds_fisherKPP",
     "Jinns.Holds.model_holds_ouFPE",
+    "Jinns.Holds.model_holds_fpe",
     "Jinns.Holds.model_holds_glv",
     "Jinns.Holds.model_holds_massConservation",
     "Jinns.Holds.model_holds_navierStokes",
@@ -211,13 +220,17 @@ def _rel_tol(case):
 
 def _request(case, observed):
     nets = case["nets"]
-    if case["kind"] in ("burgers", "fisher", "ou"):
+    if case["kind"] in ("burgers", "fisher", "ou", "fpe"):
         jn = {"single": [_lean_poly(case, p) for p in nets[0][1]]}
     else:
         jn = {"dict": [[name, [_lean_poly(case, p) for p in ps]] for name, ps in nets]}
-    return {"op": "c02", "kind": case["kind"], "Tmax": case["Tmax"], "sem": case["sem"], "keys": case["keys"],
-            "eq_params": _eq_params_tree(case), "nets": jn, "t": case.get("t"), "x": case.get("x"),
-            "observed": observed, "relTol": _rel_tol(case)}
+    req = {"op": "c02", "kind": case["kind"], "Tmax": case["Tmax"], "sem": case["sem"], "keys": case["keys"],
+           "eq_params": _eq_params_tree(case), "nets": jn, "t": case.get("t"), "x": case.get("x"),
+           "observed": observed, "relTol": _rel_tol(case)}
+    if case["kind"] == "fpe":
+        req["drift"] = case["drift"]
+        req["diff"] = case["diff"]
+    return req
 
 
 def lean_request(case, obs):
@@ -258,10 +271,13 @@ def run_impl(case):
         t = t[0]
     x = None if case.get("x") is None else jnp.asarray([float(Fraction(v)) for v in case["x"]], dtype=jnp.float64)
     try:
-        if kind in ("burgers", "fisher", "ou"):
+        if kind in ("burgers", "fisher", "ou", "fpe"):
             u = pinns[case["nets"][0][0]]
             params = Params(nn_params=u.init_params(), eq_params=eqp)
-            loss = {"burgers": BurgerEquation, "fisher": FisherKPP, "ou": OU_FPENonStatioLoss2D}[kind](Tmax=Tmax)
+            if kind == "fpe":
+                loss = _user_fpe(case, Tmax)
+            else:
+                loss = {"burgers": BurgerEquation, "fisher": FisherKPP, "ou": OU_FPENonStatioLoss2D}[kind](Tmax=Tmax)
             f = lambda t, x, p: loss.evaluate(t, x, u, p)
             res = (jax.jit(f) if case.get("jit") else f)(t, x, params)
         else:
@@ -284,6 +300,27 @@ def run_impl(case):
     if not np.all(np.isfinite(res)):
         return {"nonfinite": True, "shape": list(res.shape)}
     return {"value": [core.qstr(v) for v in res.reshape(-1)], "shape": list(res.shape)}
+
+
+def _user_fpe(case, Tmax):
+    """a user subclass of the real `FPENonStatioLoss2D` (its `equation` is inherited) whose drift vector and
+    diffusion matrix are polynomial fields of (t, x): exercises the off-diagonal second-order terms, which
+    the diagonal OU diffusion leaves identically zero"""
+    import jax.numpy as jnp
+    from harness.polynet import make_polynet
+    from jinns.loss._DynamicLoss import FPENonStatioLoss2D
+
+    dnet = make_polynet([_P(3, p) for p in case["drift"]])
+    Dnet = make_polynet([_P(3, p) for row in case["diff"] for p in row])
+
+    class UserFPE(FPENonStatioLoss2D):
+        def drift(self, t, x, eq_params):
+            return dnet(jnp.concatenate([t, x]))
+
+        def diffusion(self, t, x, eq_params, i=None, j=None):
+            return Dnet(jnp.concatenate([t, x])).reshape(2, 2)
+
+    return UserFPE(Tmax=Tmax)
 
 
 # --------------------------------------------------------------------------------------------
@@ -418,6 +455,20 @@ def _gen_ou(rng):
     return c
 
 
+def _gen_fpe(rng):
+    c = _base("fpe", rng)
+    c["sem"] = {}
+    c["eq_params"] = [["unused", _q(_dy(rng, -2, 2, 1))]]
+    const = rng.random() < 0.5  # constant (non-symmetric) diffusion matrix, or polynomial entries
+    c["drift"] = [_pj(_rand_poly(rng, 3, 2, 3)) for _ in range(2)]
+    c["diff"] = [[_pj(_rand_poly(rng, 3, 0 if const else 2, 1 if const else 3)) for _ in range(2)] for _ in range(2)]
+    c["nets"] = [["u", [_pj(_rand_poly(rng, 3, 3, 7))]]]
+    c["t"] = _pt(rng, 1)[0]
+    c["x"] = _pt(rng, 2)
+    c["free"] = [{"net": "u", "comp": 0, "mono": [1, 0, 0]}]
+    return c
+
+
 GLV_KEYS = [["0", "1", "2", "3"], ["a", "b", "c", "d"], ["prey", "pred", "x", "N3"]]
 
 
@@ -530,8 +581,8 @@ def _gen_ns(rng, layout=None):
     return c
 
 
-GEN = {"burgers": _gen_burgers, "fisher": _gen_fisher, "ou": _gen_ou, "glv": _gen_glv, "mass": _gen_mass,
-       "ns": _gen_ns}
+GEN = {"burgers": _gen_burgers, "fisher": _gen_fisher, "ou": _gen_ou, "fpe": _gen_fpe, "glv": _gen_glv,
+       "mass": _gen_mass, "ns": _gen_ns}
 
 
 # ---- free parameters: reading / writing one of them in a case ---------------------------------
@@ -720,14 +771,14 @@ def _solutions(rng):
 
 
 def gen_cases(rng, tier):
-    per = {"quick": {"burgers": 30, "fisher": 30, "ou": 30, "glv": 48, "mass": 18, "ns": 34},
-           "thorough": {"burgers": 500, "fisher": 500, "ou": 500, "glv": 700, "mass": 300, "ns": 500}}[tier]
+    per = {"quick": {"burgers": 30, "fisher": 30, "ou": 28, "fpe": 16, "glv": 48, "mass": 18, "ns": 34},
+           "thorough": {"burgers": 500, "fisher": 500, "ou": 450, "fpe": 250, "glv": 700, "mass": 300, "ns": 500}}[tier]
     cases = []
     for kind, n in per.items():
         for _ in range(n):
             cases.append(GEN[kind](rng))
     # every Tmax for every time-dependent kind, at least once
-    for kind in ("burgers", "fisher", "ou", "glv"):
+    for kind in ("burgers", "fisher", "ou", "fpe", "glv"):
         for T in TMAX:
             c = GEN[kind](rng)
             c["Tmax"] = T
@@ -745,7 +796,9 @@ def gen_cases(rng, tier):
     for k in per:
         for _ in range(12 * keep):
             c = GEN[k](rng)
-            if k in ("burgers", "fisher", "ou") and rng.random() < 0.5:
+            if k == "fpe":
+                c["t"] = "0"
+            elif k in ("burgers", "fisher", "ou") and rng.random() < 0.5:
                 # alternative free parameter: the coefficient of the monomial t of the network, at t = 0
                 c["t"] = "0"
                 c["free"] = [{"net": "u", "comp": 0, "mono": [1] + [0] * len(c["x"])}]
@@ -781,7 +834,7 @@ def shrink_candidates(case):
                     c = copy.deepcopy(case)
                     del c["nets"][ni][1][pi][mi]
                     yield c
-    if case["Tmax"] != "2" and case["kind"] in ("burgers", "fisher", "ou", "glv"):
+    if case["Tmax"] != "2" and case["kind"] in ("burgers", "fisher", "ou", "fpe", "glv"):
         c = copy.deepcopy(case)
         c["Tmax"] = "2"
         yield c
